@@ -350,6 +350,7 @@ func ccOracle(sc ccScenario, obs ccObs) []ccVerdict {
 	var v []ccVerdict
 	add := func(sig, f string, a ...any) { v = append(v, ccVerdict{sig, fmt.Sprintf(f, a...)}) }
 	closed := false
+	lastTrig := "no-trigger"
 	si := 0 // index in sc.Steps
 	for i, o := range obs.Steps {
 		what := "negotiation"
@@ -360,6 +361,9 @@ func ccOracle(sc ccScenario, obs ccObs) []ccVerdict {
 			}
 			si++
 			what = fmt.Sprintf("step %d (%s)", i, strings.TrimSpace(ccDescribe(ccScenario{Steps: []ccStep{st}})))
+		}
+		if !o.IsNeg && !o.IsClose && st.Trig != ccTNone {
+			lastTrig = "after-" + ccActNames[st.Act] + "@" + ccTrigNames[st.Trig]
 		}
 		switch o.Res {
 		case ccRPanic:
@@ -373,7 +377,7 @@ func ccOracle(sc ccScenario, obs ccObs) []ccVerdict {
 		case ccRHang:
 			add("hang/"+ccTrigNames[st.Trig], "%s did not return", what)
 		case ccRWrong:
-			add("wrong-response/"+ccTrigNames[st.Trig], "%s returned the response %q of another request", what, o.Got)
+			add("wrong-response/"+lastTrig, "%s returned the response %q of another request", what, o.Got)
 		}
 		if o.Ntx > 4 {
 			add("retry-bound", "%s transmitted its request %d times", what, o.Ntx)
